@@ -6,7 +6,8 @@ open Lean S2T.Drv S2T.SP
 def urlT : UrlT :=
   { tokenUrl := S2T.Gen.SharePoint.tokenUrl, siteUrl := S2T.Gen.SharePoint.siteUrl,
     rootPre := S2T.Gen.SharePoint.rootPre, rootPost := S2T.Gen.SharePoint.rootPost,
-    itemA := S2T.Gen.SharePoint.itemA, itemB := S2T.Gen.SharePoint.itemB, itemC := S2T.Gen.SharePoint.itemC }
+    itemA := S2T.Gen.SharePoint.itemA, itemB := S2T.Gen.SharePoint.itemB, itemC := S2T.Gen.SharePoint.itemC,
+    pathA := S2T.Gen.SharePoint.pathA, pathB := S2T.Gen.SharePoint.pathB }
 
 def optStr (j : Json) (k : String) : Except String (Option Str) := do
   return (← getOptStr j k).map chars
@@ -35,7 +36,8 @@ def parseBody (j : Json) : Except String Body := do
   | "obj" =>
     let items ← (← getArr j "value").toList.mapM parseItem
     return .obj { accessToken := ← optStr j "token", id := ← optStr j "id", value := items,
-                  next := (← optStr j "next").map Url.raw }
+                  next := (← optStr j "next").map Url.raw,
+                  hasFolder := match j.getObjVal? "folder" with | .ok (.bool b) => b | _ => false }
   | x => throw s!"body kind {x}"
 
 def parseOutcome (j : Json) : Except String Outcome := do
@@ -58,9 +60,15 @@ def jMeta (m : FileMeta) : Json :=
   Json.mkObj [("name", jStr m.name), ("id", jStr m.id), ("created", jOpt m.created),
               ("modified", jOpt m.modified), ("parent", jStr m.parent)]
 
-def jRes (r : R (List FileMeta)) : Json :=
+def isByPath : Url → Bool
+  | .byPath _ _ => true
+  | _ => false
+
+def jRes (r : R (List FileMeta)) (partialOut : List FileMeta := []) : Json :=
   let (x, s) := r
-  let tail := [("opened", Json.num (JsonNumber.fromNat s.opened)), ("closed", Json.num (JsonNumber.fromNat s.closed)),
+  let tail := [("partial", Json.arr (partialOut.map jMeta).toArray),
+               ("paths", Json.arr ((s.log.reverse.filter (fun p => isByPath p.2)).map (fun p => jStr (p.2.render urlT))).toArray),
+               ("opened", Json.num (JsonNumber.fromNat s.opened)), ("closed", Json.num (JsonNumber.fromNat s.closed)),
                ("reqs", Json.num (JsonNumber.fromNat s.log.length)),
                ("last", match s.log with | (_, u) :: _ => jStr (u.render urlT) | [] => Json.null)]
   match x with
@@ -100,13 +108,19 @@ def run (j : Json) : Except String Json := do
   let mut s : St := {}
   let mut outs : Array Json := #[]
   for c in calls do
-    let r ← match ← getStr c "kind" with
-      | "all" => pure (listAll .fixed t fuel s)
+    let (r, part) ← match ← getStr c "kind" with
+      | "all" => pure (listAll .fixed t fuel s, [])
       | "filtered" => do
-        let f ← parseFilter (← c.getObjVal? "filter")
-        pure (listFiltered .fixed t isoStrict asciiLower globMatch f fuel s)
+        let fj ← c.getObjVal? "filter"
+        let f ← parseFilter fj
+        let folders ← match fj.getObjVal? "folders" with
+          | .ok (.arr a) => a.toList.mapM (fun x => chars <$> x.getStr?)
+          | _ => pure []
+        -- the generator: what it yielded before it ended; `toR` = the consumer `list(...)`
+        let g := listFilteredL .fixed t isoStrict asciiLower globMatch f folders fuel s
+        pure (g.toR, g.1.out)
       | x => throw s!"call kind {x}"
-    outs := outs.push (jRes r)
+    outs := outs.push (jRes r (match r.1 with | .ok _ => [] | .error _ => part))
     s := r.2
   return Json.mkObj [("calls", Json.arr outs)]
 
@@ -126,8 +140,14 @@ def parseOp (j : Json) : Except String Json := do
     | some t => Json.num (JsonNumber.fromInt t)
     | none => Json.null)]
 
+/-- op `c18.quote`: `quote(path.strip("/"), safe="/")` and the stripped path -/
+def quoteOp (j : Json) : Except String Json := do
+  let s ← getStr j "s"
+  return Json.mkObj [("strip", jStr (stripSlash (chars s))), ("q", jStr (quote (stripSlash (chars s))))]
+
 def handle (op : String) (j : Json) : Option (Except String Json) :=
   match op with
+  | "c18.quote" => some (quoteOp j)
   | "c18.run" => some (run j)
   | "c18.match" => some (matchOp j)
   | "c18.parse" => some (parseOp j)
